@@ -285,7 +285,16 @@ func TestVerifRoachSelfEnd(t *testing.T) {
 	step := func(name string, f func() error, limit time.Duration) {
 		ret, msg := auCall(f, limit)
 		c := census()
-		vEmit(vmap{"ev": "UDPStep", "scen": 2, "step": name, "returned": ret, "err": msg, "state": lcStateName(rs.GetState()), "writing": rs.WritingIsActive(),
+		// is data writing on?  Read from the reported state and from the channels themselves (open writers), not through
+		// the predicate the code itself uses to decide whether a run end must stop writing
+		ws := rs.ComputeWritingState()
+		open := 0
+		for _, dsp := range rs.processors {
+			if dsp.HasLJH22() || dsp.HasLJH3() || dsp.HasOFF() {
+				open++
+			}
+		}
+		vEmit(vmap{"ev": "UDPStep", "scen": 2, "step": name, "returned": ret, "err": msg, "state": lcStateName(rs.GetState()), "writing": ws.Active || open > 0,
 			"census": vmap{"core": c["core"] - c0["core"], "udp": c["udp"] - c0["udp"], "reader": c["reader"] - c0["reader"]}})
 	}
 	sender := func(stop chan struct{}) {
@@ -333,6 +342,18 @@ func TestVerifRoachSelfEnd(t *testing.T) {
 			}
 		}, 10*time.Second)
 		time.Sleep(150 * time.Millisecond)
+		if cycle == 1 {
+			// the second run is PAUSED when it ends by itself: writing must be stopped all the same
+			step("write-pause", func() error {
+				res := make(chan error, 1)
+				select {
+				case q <- func() { res <- rs.WriteControl(&WriteControlConfig{Request: "Pause"}) }:
+					return <-res
+				case <-time.After(5 * time.Second):
+					return fmt.Errorf("the core loop did not take the request")
+				}
+			}, 10*time.Second)
+		}
 		close(stop) // silence: the reader gives up after its 2 s keep-alive
 		for i := 0; i < 120 && rs.GetState() != Inactive; i++ {
 			time.Sleep(50 * time.Millisecond)
